@@ -373,6 +373,7 @@ def run(ctx):
                 'list/tuple, missing/extra key, changed leaf), or an unrelated inquiry; ==, symmetry, hash agreement, JSON '
                 'round trip and normalisation judged by a content oracle and by the model; hashes recomputed in %d fresh '
                 'interpreters with different PYTHONHASHSEED' % len(seeds))
+    out.rule += '; plus a two-key dictionary buried 1..40, 50, 60 levels deep (under dictionaries, lists or alternating) in a field and in the context, in both key orders: equal, equal hashes, unequal after a change of the buried value, equal after the JSON round trip'
     return out
 
 
